@@ -47,9 +47,9 @@ Qed.
 
 Lemma Inv_SO s s' :
   Inv hh s -> SO s s' -> FHl (files s') -> SWl hh (steps s') -> UDl (nodes s) (files s') ->
-  NoDup (shash s') -> incl (shash s') (SL (steps s)) -> Inv hh s'.
+  NoDup (shash s') -> incl (shash s') (SL (steps s)) -> OEl (nodes s) (files s') (deps s) -> Inv hh s'.
 Proof.
-  intros HI [E1 E2 E3 E4 E5 E6] HF HS HU Hh1 Hh2. destruct HI as [I1 I2 I3 I4 I5 I6 I7].
+  intros HI [E1 E2 E3 E4 E5 E6] HF HS HU Hh1 Hh2 HO. destruct HI as [I1 I2 I3 I4 I5 I6 I7 I8].
   constructor; rewrite ?E1, ?E2, ?E3; try assumption.
   destruct I2 as [H1 H2 H3 H4 H5 H6 H7]. constructor; rewrite ?E4, ?E5; assumption.
 Qed.
@@ -128,9 +128,38 @@ Proof. unfold fstate_of, find_file. fold (findf l (files s)). destruct (findf l 
 Lemma sstate_of_finds l s : sstate_of l s = option_map sst (finds l (steps s)).
 Proof. unfold sstate_of, find_step. fold (finds l (steps s)). destruct (finds l (steps s)); reflexivity. Qed.
 
+Lemma OEl_updf ns fs ds l g :
+  (forall r, fl (g r) = fl r) ->
+  (forall d sl, In d ds -> dsrc d = (KStep, sl) -> dsnk d = (KFile, l) ->
+     forall n c, findn (KFile, l) ns = Some n -> ncre n = Some c ->
+     forall r, findf l fs = Some r -> out_state (fstt (g r)) = true) ->
+  OEl ns fs ds -> OEl ns (updf l g fs) ds.
+Proof.
+  intros Hg Hnew HO d sl f Hd Hs Hk n c Hn Hc. destruct (HO d sl f Hd Hs Hk n c Hn Hc) as [H1 [r [H2 H3]]].
+  split; [exact H1|]. rewrite findf_updf; [|exact Hg].
+  destruct (str_eqb f l) eqn:E.
+  - apply str_eqb_eq in E. subst f. rewrite H2. cbn. exists (g r). split; [reflexivity|].
+    eapply Hnew; eassumption.
+  - exists r. auto.
+Qed.
+
+Lemma OEl_mono_nodes ns ns' fs ds :
+  (forall l n', findn (KFile, l) ns' = Some n' ->
+     exists n, findn (KFile, l) ns = Some n /\ (ncre n' = None \/ ncre n' = ncre n)) ->
+  OEl ns fs ds -> OEl ns' fs ds.
+Proof.
+  intros H HO d sl f Hd Hs Hk n' c Hn' Hc. destruct (H _ _ Hn') as [n [Hn [Hcn|Hcn]]]; [congruence|].
+  apply (HO d sl f Hd Hs Hk n c Hn). congruence.
+Qed.
+
+Lemma OEl_filter ns fs ds p : OEl ns fs ds -> OEl ns fs (filter p ds).
+Proof. intros HO d sl f Hd. apply filter_In in Hd. apply HO. tauto. Qed.
+
 (* set_fstate_hash *)
 Lemma set_fstate_hash_spec strict l new newh s :
   Inv hh s -> new <> FUndeclared ->
+  (forall d sl, In d (deps s) -> dsrc d = (KStep, sl) -> dsnk d = (KFile, l) ->
+     forall n c, findn (KFile, l) (nodes s) = Some n -> ncre n = Some c -> out_state new = true) ->
   (strict = true -> needs_hash new = true ->
      match newh with
      | Some h => h <> None
@@ -142,7 +171,7 @@ Lemma set_fstate_hash_spec strict l new newh s :
                  (find_file l s <> None -> fstate_of l s' = Some new) /\
                  (find_file l s = None -> s' = s)).
 Proof.
-  intros HI Hnew Hstrict. unfold set_fstate_hash.
+  intros HI Hnew Hoe Hstrict. unfold set_fstate_hash.
   destruct (find_file l s) as [r|] eqn:Hf.
   2:{ cbn. split; [exact HI|]. split; [apply SO_refl|]. split; [reflexivity|]. split; [reflexivity|].
       split; [reflexivity|]. split; [intros H; congruence | reflexivity]. }
@@ -166,13 +195,15 @@ Proof.
       try (destruct h1; [reflexivity | discriminate]). }
   split; [|split; [exact HSO|]].
   - apply (Inv_SO s); [exact HI | exact HSO | | apply (inv_sw _ HI) | | apply (rw_hnodup _ _ _ _ _ (inv_rw _ HI))
-                      | apply (rw_hstep _ _ _ _ _ (inv_rw _ HI))].
+                      | apply (rw_hstep _ _ _ _ _ (inv_rw _ HI)) |].
     + intros r' Hr'. rewrite files_upd_file in Hr'. apply In_updf in Hr'.
       destruct Hr' as [r0 [Hr0 [[Hl ->]|[Hl ->]]]]; [|apply (inv_fh _ HI); exact Hr0].
       unfold g. unfold fh_ok_b. cbn [fstt fh]. unfold fh_ok_b in Hrow. cbn [fstt fh] in Hrow. exact Hrow.
     + intros r' Hr' Hst. rewrite files_upd_file in Hr'. apply In_updf in Hr'.
       destruct Hr' as [r0 [Hr0 [[Hl ->]|[Hl ->]]]]; [cbn in Hst; congruence|].
       apply (inv_ud _ HI); assumption.
+    + rewrite files_upd_file. apply OEl_updf; [exact Hg | | apply (inv_oe _ HI)].
+      intros d sl Hd Hs Hk n c Hn Hc r0 _. cbn. eapply Hoe; eassumption.
   - repeat split; try reflexivity.
     + intros l' Hl'. unfold find_file. rewrite files_upd_file. fold (findf l' (updf l g (files s))).
       rewrite findf_updf; [|exact Hg]. apply str_eqb_neq in Hl'. rewrite Hl'. reflexivity.
@@ -194,7 +225,8 @@ Proof.
   { constructor; try reflexivity. rewrite steps_upd_step. apply SL_upds. exact Hg. }
   split; [|exact HSO].
   apply (Inv_SO s); [exact HI | exact HSO | apply (inv_fh _ HI) | | apply (inv_ud _ HI)
-                    | apply (rw_hnodup _ _ _ _ _ (inv_rw _ HI)) | apply (rw_hstep _ _ _ _ _ (inv_rw _ HI))].
+                    | apply (rw_hnodup _ _ _ _ _ (inv_rw _ HI)) | apply (rw_hstep _ _ _ _ _ (inv_rw _ HI))
+                    | apply (inv_oe _ HI)].
   intros r' Hr'. rewrite steps_upd_step in Hr'. apply In_upds in Hr'.
   destruct Hr' as [r0 [Hr0 [[Hl ->]|[Hl ->]]]]; [apply Hok; assumption | apply (inv_sw _ HI); exact Hr0].
 Qed.
@@ -246,7 +278,7 @@ Proof.
   assert (HSO : SO s (set_shash s sh)) by (constructor; reflexivity).
   split; [|exact HSO].
   apply (Inv_SO s); [exact HI | exact HSO | apply (inv_fh _ HI) | apply (inv_sw _ HI) | apply (inv_ud _ HI)
-                    | exact H1 | exact H2].
+                    | exact H1 | exact H2 | apply (inv_oe _ HI)].
 Qed.
 
 Lemma delete_hash_inv l s : Inv hh s -> Inv hh (delete_hash l s) /\ SO s (delete_hash l s).
@@ -290,7 +322,7 @@ Qed.
 Lemma Inv_set_envs s es :
   Inv hh s -> incl (map estep es) (SL (steps s)) -> Inv hh (set_envs s es).
 Proof.
-  intros [I1 I2 I3 I4 I5 I6 I7] H. constructor; try assumption.
+  intros [I1 I2 I3 I4 I5 I6 I7 I8] H. constructor; try assumption.
   destruct I2 as [H1 H2 H3 H4 H5 H6 H7]. constructor; assumption.
 Qed.
 
@@ -435,7 +467,7 @@ Proof.
       2:{ apply mark_post_refl. exact HI. }
       apply wpg_bind. unfold set_fstate.
       eapply wpg_weaken.
-      { apply set_fstate_hash_spec; [exact HI | discriminate |].
+      { apply set_fstate_hash_spec; [exact HI | discriminate | intros; reflexivity |].
         intros _ _ r Hr. rewrite fstate_of_findf in Hfs. unfold find_file in Hr.
         fold (findf f (files s)) in Hr. rewrite Hr in Hfs. cbn in Hfs.
         pose proof (findf_In _ _ _ Hr) as [Hin _]. pose proof (inv_fh _ HI r Hin) as Hok.
@@ -534,9 +566,9 @@ Lemma Inv_nodes_change s s' :
   Inv hh s -> NWl (nodes s') -> KL (nodes s') = KL (nodes s) ->
   files s' = files s -> steps s' = steps s -> deps s' = deps s -> envs s' = envs s ->
   NoDup (shash s') -> incl (shash s') (shash s) ->
-  UDl (nodes s') (files s) -> Inv hh s'.
+  UDl (nodes s') (files s) -> OEl (nodes s') (files s) (deps s) -> Inv hh s'.
 Proof.
-  intros [I1 I2 I3 I4 I5 I6 I7] HN HK Hf Hs Hd He Hh1 Hh2 HU.
+  intros [I1 I2 I3 I4 I5 I6 I7 I8] HN HK Hf Hs Hd He Hh1 Hh2 HU HO.
   constructor; rewrite ?Hf, ?Hs, ?Hd, ?He; try assumption.
   - destruct I2 as [H1 H2 H3 H4 H5 H6 H7]. constructor; rewrite ?HK; try assumption.
     eapply incl_tran; eassumption.
@@ -611,6 +643,9 @@ Proof.
     + rewrite R5. apply (rw_hnodup _ _ _ _ _ (inv_rw _ HI)).
     + rewrite R5. apply incl_refl.
     + apply (UDl_mono (nodes s)); [|apply (inv_ud _ HI)].
+      intros l n' Hn'. rewrite Hnodes in Hn'. destruct (detach_nodes_findn _ _ _ _ _ Hf Hn') as [m [Hm [Hcm _]]].
+      exists m. auto.
+    + apply (OEl_mono_nodes (nodes s)); [|apply (inv_oe _ HI)].
       intros l n' Hn'. rewrite Hnodes in Hn'. destruct (detach_nodes_findn _ _ _ _ _ Hf Hn') as [m [Hm [Hcm _]]].
       exists m. auto.
   - repeat split; try assumption. rewrite R5. apply incl_refl.
@@ -714,6 +749,9 @@ Proof.
       + apply (UDl_mono (nodes s)); [|apply (inv_ud _ HI)].
         intros l n' Hn'. rewrite Hnodes in Hn'. destruct (reattach_nodes_findn _ _ _ _ _ _ Hn') as [m [Hm Hcm]].
         exists m. split; [exact Hm|]. right. apply Hcm. intros He. rewrite <- He in Hkind. discriminate.
+      + apply (OEl_mono_nodes (nodes s)); [|apply (inv_oe _ HI)].
+        intros l n' Hn'. rewrite Hnodes in Hn'. destruct (reattach_nodes_findn _ _ _ _ _ _ Hn') as [m [Hm Hcm]].
+        exists m. split; [exact Hm|]. right. apply Hcm. intros He. rewrite <- He in Hkind. discriminate.
     - repeat split; assumption.
     - intros n0 cn0 H1 H2. inversion H2; subst cn0. exact Hnodes. }
   destruct (ncre n) as [oc|] eqn:Hoc.
@@ -743,16 +781,21 @@ Proof. apply map_app. Qed.
 
 Lemma add_dep_spec strict a b dyn s :
   Inv hh s -> In a (KL (nodes s)) -> In b (KL (nodes s)) -> ~ path (EL (deps s)) b a ->
+  (forall sl f, a = (KStep, sl) -> b = (KFile, f) ->
+     forall n c, findn (KFile, f) (nodes s) = Some n -> ncre n = Some c ->
+     c = (KStep, sl) /\ exists r, findf f (files s) = Some r /\ out_state (fstt r) = true) ->
   (strict = true -> dep_kinds_ok a b = true) ->
   wpg strict (add_dep a b dyn s)
       (fun s' => Inv hh s' /\ s' = set_deps s (deps s ++ [mkD a b dyn])).
 Proof.
-  intros HI Ha Hb Hp Hst. unfold add_dep.
+  intros HI Ha Hb Hp Hout Hst. unfold add_dep.
   destruct (has_dep a b s) eqn:Ehd; [exact I|].
   destruct (dep_kinds_ok a b) eqn:Ek; cbn [negb].
   2:{ destruct strict; [|exact I]. cbn. specialize (Hst eq_refl). discriminate. }
   cbn [wpg]. split; [|reflexivity].
-  destruct HI as [I1 I2 I3 I4 I5 I6 I7]. constructor; try assumption; cbn [deps set_deps nodes].
+  destruct HI as [I1 I2 I3 I4 I5 I6 I7 I8]. constructor; try assumption; cbn [deps set_deps nodes files].
+  3:{ intros d sl f Hd Hs Hk. apply in_app_or in Hd. destruct Hd as [Hd|[<-|[]]]; [apply (I8 d sl f Hd Hs Hk)|].
+      cbn in Hs, Hk. apply Hout; assumption. }
   - destruct I3 as [D1 D2 D3 D4]. constructor.
     + intros d Hd. apply in_app_or in Hd. destruct Hd as [Hd|[<-|[]]]; [apply D1; exact Hd | exact Ek].
     + intros d Hd. apply in_app_or in Hd. destruct Hd as [Hd|[<-|[]]]; [apply D2; exact Hd | exact Ha].
@@ -766,7 +809,8 @@ Qed.
 
 Lemma Inv_filter_deps s p : Inv hh s -> Inv hh (set_deps s (filter p (deps s))).
 Proof.
-  intros [I1 I2 I3 I4 I5 I6 I7]. constructor; try assumption; cbn [deps set_deps nodes].
+  intros [I1 I2 I3 I4 I5 I6 I7 I8]. constructor; try assumption; cbn [deps set_deps nodes files].
+  3:{ apply OEl_filter. exact I8. }
   - destruct I3 as [D1 D2 D3 D4]. constructor.
     + intros d Hd. apply filter_In in Hd. apply D1. tauto.
     + intros d Hd. apply filter_In in Hd. apply D2. tauto.
@@ -832,7 +876,7 @@ Lemma delete_node_inv k kn s :
   (forall d, In d (deps s) -> dsrc d <> k) ->
   Inv hh (delete_node k s).
 Proof.
-  intros HI Hf Hdet Hprod Hsrc. pose proof HI as [I1 I2 I3 I4 I5 I6 I7].
+  intros HI Hf Hdet Hprod Hsrc. pose proof HI as [I1 I2 I3 I4 I5 I6 I7 I8].
   unfold find_node in Hf. fold (findn k (nodes s)) in Hf.
   assert (HNW : NWl (removen k (nodes s))).
   { eapply NW_remove; try eassumption. apply products_nil. exact Hprod. }
@@ -852,6 +896,13 @@ Proof.
   assert (HUD : forall fs', incl fs' (files s) -> UDl (removen k (nodes s)) fs').
   { intros fs' Hi r Hr Hst n Hn. unfold removen in Hn. rewrite findn_remove in Hn.
     destruct (key_eqb (KFile, fl r) k); [discriminate|]. eapply I5; [apply Hi; exact Hr | exact Hst | exact Hn]. }
+  assert (HOE : forall fs', (forall f r, (KFile, f) <> k -> findf f (files s) = Some r -> findf f fs' = Some r) ->
+                 OEl (removen k (nodes s)) fs' ds').
+  { intros fs' Hfs d sl f Hd Hs Hk n c Hn Hc. apply filter_In in Hd. destruct Hd as [Hd Hne].
+    apply negb_true_iff in Hne. apply key_eqb_neq in Hne. rewrite Hk in Hne.
+    unfold removen in Hn. rewrite findn_remove in Hn. apply key_eqb_neq in Hne. rewrite Hne in Hn.
+    destruct (I8 d sl f Hd Hs Hk n c Hn Hc) as [H1 [r [H2 H3]]]. split; [exact H1|]. exists r. split; [|exact H3].
+    apply Hfs; [apply key_eqb_neq; exact Hne | exact H2]. }
   destruct I2 as [R1 R2 R3 R4 R5 R6 R7].
   assert (Hnotroot : fst k <> KRoot).
   { intros Hk. apply Hkr. pose proof (findn_In _ _ _ Hf) as [Hin Hkey].
@@ -862,6 +913,12 @@ Proof.
     try match goal with |- context [filter (fun n => negb (key_eqb (nk n) ?k)) (nodes s)] =>
       change (filter (fun n => negb (key_eqb (nk n) k)) (nodes s)) with (removen k (nodes s)) end;
     try exact HNW; try exact HDW; try exact HAC; try exact I6; try exact I7;
+    try (apply HOE; intros f r _ Hr; exact Hr);
+    try (apply HOE; intros f r Hne Hr; unfold findf in *; rewrite find_filter;
+         rewrite <- Hr; apply find_ext; intros x _;
+         destruct (str_eqb (fl x) f) eqn:Ex; [|apply andb_false_r];
+         apply str_eqb_eq in Ex; subst f; rewrite andb_true_r; apply negb_true_iff; apply str_eqb_neq;
+         intros He; apply Hne; rewrite He; reflexivity);
     try (apply HUD; apply incl_refl); try (apply HUD; intros x Hx; apply filter_In in Hx; tauto);
     try (intros r Hr; apply filter_In in Hr; destruct Hr as [Hr _]; first [apply I6; exact Hr | apply I7; exact Hr]).
   - (* file *)
@@ -896,18 +953,19 @@ Record InvU (s : st) : Prop := {
   iu_dw : DWl (nodes s) (deps s);
   iu_ac : acyclic (EL (deps s));
   iu_fh : FHl (files s);
-  iu_sw : SWl hh (steps s) }.
+  iu_sw : SWl hh (steps s);
+  iu_oe : OEl (nodes s) (files s) (deps s) }.
 
 Lemma Inv_InvU s : Inv hh s -> InvU s.
-Proof. intros [I1 I2 I3 I4 I5 I6 I7]. constructor; assumption. Qed.
+Proof. intros [I1 I2 I3 I4 I5 I6 I7 I8]. constructor; assumption. Qed.
 Lemma InvU_Inv s : InvU s -> UDl (nodes s) (files s) -> Inv hh s.
-Proof. intros [I1 I2 I3 I4 I6 I7] I5. constructor; assumption. Qed.
+Proof. intros [I1 I2 I3 I4 I6 I7 I8] I5. constructor; assumption. Qed.
 
 Lemma InvU_SO s s' :
   InvU s -> SO s s' -> FHl (files s') -> SWl hh (steps s') ->
-  NoDup (shash s') -> incl (shash s') (SL (steps s)) -> InvU s'.
+  NoDup (shash s') -> incl (shash s') (SL (steps s)) -> OEl (nodes s) (files s') (deps s) -> InvU s'.
 Proof.
-  intros [I1 I2 I3 I4 I6 I7] [E1 E2 E3 E4 E5 E6] HF HS Hh1 Hh2.
+  intros [I1 I2 I3 I4 I6 I7 I8] [E1 E2 E3 E4 E5 E6] HF HS Hh1 Hh2 HO.
   constructor; rewrite ?E1, ?E2, ?E3; try assumption.
   destruct I2 as [H1 H2 H3 H4 H5 H6 H7]. constructor; rewrite ?E4, ?E5; assumption.
 Qed.
@@ -917,6 +975,8 @@ Definition others (l : str) (fs : list frow) : list frow := filter (fun r => neg
 Lemma set_fstate_hash_gen strict l new newh s :
   InvU s -> UDl (nodes s) (others l (files s)) ->
   (new = FUndeclared -> forall n, findn (KFile, l) (nodes s) = Some n -> ncre n = None /\ ndet n = true) ->
+  (forall d sl, In d (deps s) -> dsrc d = (KStep, sl) -> dsnk d = (KFile, l) ->
+     forall n c, findn (KFile, l) (nodes s) = Some n -> ncre n = Some c -> out_state new = true) ->
   (strict = true -> needs_hash new = true ->
      match newh with
      | Some h => h <> None
@@ -928,7 +988,7 @@ Lemma set_fstate_hash_gen strict l new newh s :
                  (find_file l s <> None -> fstate_of l s' = Some new) /\
                  (find_file l s = None -> s' = s)).
 Proof.
-  intros HI HUo Hnew Hstrict. unfold set_fstate_hash.
+  intros HI HUo Hnew Hoe Hstrict. unfold set_fstate_hash.
   destruct (find_file l s) as [r|] eqn:Hf.
   2:{ cbn. split; [intros H; congruence|]. split; [apply SO_refl|]. split; [reflexivity|]. split; [reflexivity|].
       split; [reflexivity|]. split; [intros H; congruence | reflexivity]. }
@@ -955,10 +1015,12 @@ Proof.
   split; [|split; [exact HSO|]].
   - intros _. apply InvU_Inv.
     + apply (InvU_SO s); [exact HI | exact HSO | | apply (iu_sw _ HI) | apply (rw_hnodup _ _ _ _ _ (iu_rw _ HI))
-                        | apply (rw_hstep _ _ _ _ _ (iu_rw _ HI))].
-      intros r' Hr'. rewrite files_upd_file in Hr'. apply In_updf in Hr'.
-      destruct Hr' as [r0 [Hr0 [[Hl ->]|[Hl ->]]]]; [|apply (iu_fh _ HI); exact Hr0].
-      unfold g. unfold fh_ok_b. cbn [fstt fh]. unfold fh_ok_b in Hrow. cbn [fstt fh] in Hrow. exact Hrow.
+                        | apply (rw_hstep _ _ _ _ _ (iu_rw _ HI)) |].
+      * intros r' Hr'. rewrite files_upd_file in Hr'. apply In_updf in Hr'.
+        destruct Hr' as [r0 [Hr0 [[Hl ->]|[Hl ->]]]]; [|apply (iu_fh _ HI); exact Hr0].
+        unfold g. unfold fh_ok_b. cbn [fstt fh]. unfold fh_ok_b in Hrow. cbn [fstt fh] in Hrow. exact Hrow.
+      * rewrite files_upd_file. apply OEl_updf; [exact Hg | | apply (iu_oe _ HI)].
+        intros d sl Hd Hs Hk n c Hn Hc r0 _. cbn. eapply Hoe; eassumption.
     + intros r' Hr' Hst. cbn [nodes upd_file set_files]. rewrite files_upd_file in Hr'. apply In_updf in Hr'.
       destruct Hr' as [r0 [Hr0 [[Hl ->]|[Hl ->]]]].
       * cbn in Hst. cbn [fl g]. rewrite Hl. intros n Hn. apply (Hnew Hst n Hn).
